@@ -27,4 +27,31 @@ PROPS = {
                   "regenerated": ["bootstrap.pl op/3 directives"], "observed_only": ["Parser (probe)", "WriteCompound (probe)"]},
         assumptions=["pattern variables of current_op/3 calls are pairwise distinct (the model matches argument-wise)"],
     ),
+    "C14": dict(
+        level_text="Proof (partial): the process-wide state shared by all interpreters (the atom table and the variable counter) is modelled in Lean as N clients issuing newAtom/atomName/newVar against one state, each operation one atomic step. For ALL schedules and any number of clients, kernel-checked: the table is a linearizable interning function (C14_atom_table_linearizable: injective, stable across clients and time, atomName(newAtom s)=s, ids only grow, table invariant); every client's view equals, up to an injective name-preserving renaming of atom ids and a strictly monotone renaming of variable numbers, what it would see running ALONE (C14_view_as_alone, by simulation); variables are fresh, increasing and never shared (C14_var_supply); identity, standard order and canonical answers of id-level terms are invariant under exactly such renamings (C14_id_parametric), hence other interpreters cannot change an interpreter's answers (C14_answers_unchanged). C14_nonatomic_witness shows the result fails when NewAtom is not atomic. That the operations ARE atomic and that no other package-level mutable state exists are facts regenerated from the source with go/types on every run and tied by decide (C14_facts_atom_table_locked, C14_facts_var_counter_atomic, C14_facts_no_other_shared_state). Absence of data races under the Go memory model is not a theorem: it is OBSERVED by running the real code under the Go race detector (streams c14.table, c14.race; schedules sampled, not enumerated), and isolation of the per-interpreter state is checked on all pairs (state-changing directive, observer) in c14.isolation.",
+        level_note="Partial: race freedom itself is a runtime property of the Go memory model and is observed with `go build -race` on sampled schedules (2..8 goroutines, randomized GOMAXPROCS and Gosched injection), not proved. Trusted: Lean kernel; the hand-written model of NewAtom/Atom.String/NewVariable (correspondence-checked by c14.table, sequential interleavings exactly, parallel runs through schedule-independent views plus an independent linearizability checker); extract/shared.go (lock-discipline and package-variable facts are syntactic: aliasing through pointers is not tracked); the Go race detector; sync.RWMutex and sync/atomic behave as documented. Interpreters exchanging terms through the host program, halt/0 (terminates the process) and the file system are outside the property.",
+        technique="Lean 4 linearizability + simulation proof over all schedules, id-parametricity of the layers above, regenerated lock-discipline facts (go/types) tied by decide, model/implementation correspondence and whole-interpreter differential runs under the Go race detector",
+        lean_module="PrologVerif.Properties.C14",
+        ns="PrologVerif.C14",
+        streams=[
+            dict(name="c14.table", quick=700, thorough=5000, race=True, isolated=True, case_timeout=60),
+            dict(name="c14.race", quick=200, thorough=1500, race=True, isolated=True, case_timeout=120),
+            dict(name="c14.isolation", quick=3864, thorough=6000),
+        ],
+        thorough_seeds=3,
+        rule="c14.table: 1..8 goroutines issuing 1..60 (thorough 150) NewAtom/Atom.String/NewVariable calls each on the real shared table, names drawn from a small per-case pool (multi-rune, one-rune, empty, U+FFFD, pre-existing) so that clients collide, half in a generated interleaving (compared step by step with the model), half freely in parallel under randomized GOMAXPROCS and Gosched injection (views compared with the model, raw ids judged by the linearizability checker); non-trivial = at least two clients interned a common fresh multi-rune name. c14.race: 2..8 interpreters, one goroutine each, through New/Exec/Query/Next/Scan/Close on programs assembled from 10 snippet families (database updates, run-time atom creation with colliding names, variable creation and ordering, writing/quoting, op/3, flags and char_conversion, list programs, read/get_char, DCG, errors and their messages), a yield predicate and a yielding output writer injecting runtime.Gosched, built with -race (a race report kills the worker and is attributed to the case); every interpreter's canonical answers and output compared with its sequential run; non-trivial = at least 2 interpreters and new atoms were interned during the concurrent phase. c14.isolation: the full cross product 28 state-changing directives x 23 observers x 3 creation orders x 2 set-ups = 3864 cases, all run in both tiers (thorough adds chains of 2..3 random directives), observer answers in interpreter B before/after the change in A; non-trivial = the change is observable in A itself. One PRNG (VERIF_SEED); distinct = distinct case text.",
+        trusted=[
+            "modelled (hand-written, correspondence-checked by c14.table): engine/atom.go NewAtom, Atom.String; engine/variable.go NewVariable",
+            "regenerated from source on every run (extract/shared.go, go/types): every access to atomTable.names/atoms with the lock held, every access to varCounter, callers of lastVariable, all package-level variables of engine and prolog and every write/address-taking/pointer-method call on them outside init(), the fields of VM (Generated/SharedState.lean; tied by C14_facts_*)",
+            "observed only (not modelled): the interpreters themselves in c14.race / c14.isolation (public API); data-race freedom through the Go race detector; sync.RWMutex / sync/atomic semantics",
+            "not covered: aliasing of package-level variables through pointers (the extractor is syntactic), names that are not valid UTF-8, overflow of the 63-bit variable counter, terms passed between interpreters by the host program, halt/0, the file system",
+        ],
+        modelled={"hand_modelled": ["NewAtom", "Atom.String", "NewVariable", "Atom.Compare/Variable.Compare (id-level standard order, for parametricity)"],
+                  "regenerated": ["atomTable accesses + lock held", "varCounter accesses", "package-level variables and writes", "VM fields"],
+                  "observed_only": ["prolog.New/Exec/Query/Solutions (c14.race, c14.isolation)", "Go race detector"]},
+        assumptions=["each interpreter is used from one goroutine at a time (the property's own premise)",
+                     "a client only asks for names of atoms it obtained itself (one-rune atoms, atoms present at start, results of its own NewAtom calls); Atom values are not forged or passed between interpreters by the host program",
+                     "sync.RWMutex provides mutual exclusion and atomic.AddInt64 is atomic (then every model operation is one atomic step)",
+                     "variable counter does not overflow int64"],
+    ),
 }
